@@ -163,6 +163,29 @@ def _strategy(draw):
         lo = 2 if i == 0 else 0
         pos = draw(st.integers(min(lo, first_mol), first_mol))
         items.insert(pos, {"k": "include", "path": paths[j], "cond": cond})
+    if draw(st.integers(0, 5)) == 0:
+        # an #include of a file that does not exist, with or without a condition: reading fails exactly when the
+        # include is active (an inactive one is never looked at)
+        src = draw(st.sampled_from(paths))
+        cond = None
+        if draw(st.integers(0, 3)) > 0:
+            cond = {"kind": draw(st.sampled_from(["ifdef", "ifndef"])), "tag": draw(st.sampled_from(TAGS)), "else": None}
+            if draw(st.integers(0, 3)) == 0:
+                # the missing file is named in the #else branch of a conditional whose first branch exists
+                others = [p_ for p_ in paths if p_ > src]
+                cond["else"] = {"k": "include", "path": posixpath.join(posixpath.dirname(src), "gone", "absent.itp"), "missing": True}
+        items = files[src]
+        first_mol = next((k for k, it in enumerate(items) if it["k"] == "mol"), len(items))
+        lo = 2 if src == "main.top" else 0
+        pos = draw(st.integers(min(lo, first_mol), first_mol))
+        if cond and cond["else"]:
+            if draw(st.booleans()):
+                items.insert(pos, {"k": "error", "msg": "first branch", "cond": cond})
+            else:
+                cond["else"] = None
+        if not (cond and cond["else"]):
+            items.insert(pos, {"k": "include", "path": posixpath.join(posixpath.dirname(src), "gone", "absent.itp"),
+                               "cond": cond, "missing": True})
     # white space between the pragma word and its macro: blanks and tabs
     for items in files.values():
         for it in items:
@@ -238,6 +261,10 @@ def flatten(spec):
                     continue
                 if branch["k"] == "error":
                     error.append(branch["msg"])
+                    return
+                if branch.get("missing"):
+                    info["missing_conditional"] = cond is not None
+                    error.append("MISSING-FILE")
                     return
                 info["includes"] += 1
                 if depth >= 1:
@@ -342,9 +369,9 @@ def summary(topology):
 def check(spec, ctx):
     import random
     from polyply.src.topology import Topology
-    if not spec.get("molecules"):
-        raise Reject("no active molecule type")
     flat, err, info = flatten(spec)
+    if not spec.get("molecules") and err != "MISSING-FILE":
+        raise Reject("no active molecule type")
     tail = ["[ system ]", "generated system", "[ molecules ]"] + [f"{n} {c}" for n, c in spec["molecules"]]
     rnd = random.Random(spec["trivia_seed"])
     root = ctx.dir / "tree"
@@ -395,10 +422,23 @@ def check(spec, ctx):
             tree_err = None
         except NotImplementedError as exc:
             tree, tree_err = None, exc
+        except (IOError, OSError) as exc:
+            if err != "MISSING-FILE":
+                raise crash("tree:crash", exc)
+            tree, tree_err = None, exc
         except Exception as exc:
             raise crash("tree:crash", exc)
     finally:
         os.chdir(cwd)
+    if err == "MISSING-FILE":
+        if tree_err is None:
+            raise Violation("include:missing_file_ignored", "an active #include names a file that does not exist, and reading "
+                                                            "went on without it")
+        if isinstance(tree_err, NotImplementedError):
+            raise Violation("include:other_file_read", f"the missing include was not looked up next to the including file: {tree_err}")
+        ctx.label("active_include_of_missing_file")
+        ctx.nontrivial = bool(info.get("missing_conditional")) and info["includes"] >= 1
+        return
     if err is not None:
         if tree_err is None:
             raise Violation("error:active_error_ignored", f"an active #error ({err}) did not abort reading")
